@@ -21,6 +21,13 @@ in live batched dynamics.  Five case kinds, one per clause of DESIGN section 6 "
               on different rows / pairs with quiet steps in between; every step is judged with the oracles of 'after',
               and for each event a control sequence without it must leave every other row bitwise identical at
               every step.
+ hold1    (d) single step with trajectories still in post-hop holdoff (post_hop_holdoff > 0, prev_state set; with a
+              strong overlap of their active state they form the PROBE group of _detect_crossings) at a lower / higher
+              batch index than a trajectory with a genuine pairwise crossing; relabel oracle, bitwise control without
+              the crossing, and every trajectory processed alone (same inputs, same uniform draw supplied by the
+              harness: integer state and hop log exact, floats to 1e-12).  'afterseq' has the same configuration
+              arising naturally (step 0 relabels the active state of row h, step 1 has h in holdoff overlapping again
+              while row c crosses) and also compares every trajectory alone through the whole sequence.
  tully    (e) TullyFSSH, batched, three model potentials: exact conservation across every _after_electronic_update,
               applied force = -dE_active/dx (finite difference of the model's own energy), total-energy drift against
               the velocity-Verlet shadow-Hamiltonian bound, norm.
@@ -59,6 +66,9 @@ REQUIRED_MONITORS = ["propagate_returns_seen", "r3_comparisons", "ladder_levels"
                      "rescale_accepted", "rescale_rejected", "rescale_tie_trials", "after_hops_accepted",
                      "after_hops_frustrated", "after_trivial_relabels", "after_isolation_rows_compared",
                      "afterseq_sequences_with_two_applied_events", "afterseq_isolation_rows_compared",
+                     "hold1_holdoff_row_below_crossing_row", "hold1_holdoff_row_above_crossing_row", "hold1_crossing_applied",
+                     "afterseq_holdoff_row_below_relabelled_row", "afterseq_holdoff_row_above_relabelled_row",
+                     "solo_rows_compared",
                      "tully_steps", "tully_hops_accepted"]
 CASE_TIMEOUT = 600.0
 BUDGET_S = {"quick": 220, "thorough": 1700}
@@ -66,6 +76,7 @@ MIN_NONTRIVIAL = 10
 
 # ---- tolerances (derivations in the final report / DESIGN section 4) ---------------------------------------------
 EPS = 2.220446049250313e-16
+BIG = 1e300              # margin recorded for a non-finite observation
 C_AMP = 1.0 / 20.0       # RK4 principal local error ~ (h Lambda)^5/120 per sub-step; x6 allowance
 FLOOR_A = 2e-12          # round-off floor of |u - u_R3| (product of <= 5120 unitary factors + phase wrap)
 FLOOR_N = 1e-13          # round-off floor of |sum|c|^2 - 1|
@@ -138,6 +149,13 @@ def gen_cases(tier, seed):
         cases.append({"kind": "after", "scenario": sc, "regime": regimes[(k // len(scen)) % len(regimes)],
                       "ns": ns, "B": int(g.integers(2, 7)), "molsize": int(g.integers(1, 6)),
                       "dt": float(g.uniform(0.05, 0.5)), "decohere": bool(g.random() < 0.4), "seed": s()})
+    # (d) single step with trajectories in post-hop holdoff below / above a crossing trajectory
+    n_h1 = 48 if q else 1000
+    for k in range(n_h1):
+        cases.append({"kind": "hold1", "ns": int(g.integers(3, 9)), "B": int(g.integers(2, 7)), "molsize": int(g.integers(1, 5)),
+                      "dt": float(g.uniform(0.05, 0.4)), "hold_pos": ["below", "above", "both", "below"][k % 4],
+                      "hold_strong": bool((k // 4) % 3 != 2), "regime": ["fixed", "adaptive-nospike"][(k // 2) % 2],
+                      "decohere": bool(g.random() < 0.3), "seed": s()})
     # (d) multi-step sequences on ONE dynamics object (persistent caches / buffers between crossing events)
     n_s = 60 if q else 1200
     for k in range(n_s):
@@ -146,7 +164,8 @@ def gen_cases(tier, seed):
         nev = 2 if nsteps < 5 or g.random() < 0.5 else 3
         cases.append({"kind": "afterseq", "ns": ns, "B": int(g.integers(2, 7)), "molsize": int(g.integers(1, 5)),
                       "dt": float(g.uniform(0.05, 0.4)), "nsteps": nsteps, "nevents": nev,
-                      "regime": ["fixed", "adaptive-nospike"][k % 2], "decohere": bool(g.random() < 0.3), "seed": s()})
+                      "pattern": ["plain", "holdoff-below", "plain", "holdoff-above"][k % 4],
+                      "regime": ["fixed", "adaptive-nospike"][(k // 4) % 2], "decohere": bool(g.random() < 0.3), "seed": s()})
     cases.append({"kind": "selftest"})
     return cases
 
@@ -333,10 +352,17 @@ class _Acc:
         self.mon[name] = self.mon.get(name, 0) + int(n)
 
     def margin(self, name, value, bound):
-        r = float(value) / float(bound) if bound > 0 else (0.0 if value == 0 else float("inf"))
+        """observed/bound; a non-finite observation (NaN compares False with everything) is a violation of its clause"""
+        v, b = float(value), float(bound)
+        if not math.isfinite(v) or not math.isfinite(b):
+            r = BIG
+        elif b > 0:
+            r = min(v / b, BIG)
+        else:
+            r = 0.0 if v == 0 else BIG
         if name not in self.margins or r > self.margins[name]:
             self.margins[name] = r
-        return r > 1.0
+        return not (r <= 1.0)
 
     def violate(self, clause, mech, **detail):
         if len(self.viol) < 12:
@@ -472,6 +498,9 @@ def _run_prop(case):
     nsub = int(nsub)
     u = dyn._coeffs_complex().numpy()
     pop = dyn.populations.numpy()
+    hi = dyn._hop_integral
+    if not (np.isfinite(u).all() and np.isfinite(pop).all() and (hi is None or bool(np.isfinite(hi.numpy()).all()))):
+        acc.violate("amplitudes-and-hop-integral-finite", None, nsub=nsub, finite_u=bool(np.isfinite(u).all()))
     acc.cells.add("prop/ns%d/%s/spike-%s/%s" % (ns, case["mode"], case["spike"], "first" if first else "later"))
     acc.cells.add("prop/gap1e%d" % int(math.floor(math.log10(case["gap"]))))
     acc.cells.add("prop/B%d" % B)
@@ -522,6 +551,8 @@ def _run_prop(case):
                 As.append(float(np.linalg.norm(dk._coeffs_complex().numpy()[0] - ref)))
                 Ns.append(abs(float(dk.populations.numpy()[0].sum()) - 1.0))
                 acc.count("ladder_levels")
+            if not np.isfinite(As + Ns).all():
+                acc.violate("amplitudes-and-hop-integral-finite", None, n0=n0, amp_errs=As, norm_errs=Ns)
             anchor = max(Ns[0], 2.0 * As[0])
             for k in range(1, 4):
                 if As[k - 1] > 8.0 * FLOOR_A:
@@ -610,6 +641,9 @@ def _run_hopfreq(case):
             k = int(counts[c, j])
             pj = float(min(1.0, p_all[j]))
             acc.count("binomial_tests")
+            if not math.isfinite(pj):
+                acc.violate("hop-frequency", None, config=c, target=j, g="non-finite")
+                continue
             if pj <= 0.0:
                 if k != 0:
                     acc.violate("hop-frequency", None, config=c, target=j, count=k, n=n, g=pj, note="hop to a state with g = 0")
@@ -668,6 +702,9 @@ def _rescale_oracle(acc, v0, v1, ok, d_eff, m, minv, dE, K, row, tag, extra, che
     wit = dict(extra)
     wit.update({"where": tag, "v_dot_d": vd, "d2_by_m": D2, "dE": dE, "disc": disc, "ke_before": ke0, "ke_after": ke1,
                 "accepted": bool(ok), "tie": tie, "v": vb.tolist(), "d": d_eff.tolist(), "mass": m.tolist()})
+    if not np.isfinite(va).all():
+        acc.violate("rescale-velocities-finite", mech, **wit)
+        return "nonfinite"
     if abs(disc) <= band:
         acc.count("rescale_near_threshold_not_judged")
         return "threshold"
@@ -897,6 +934,10 @@ def _pipe_init(inp):
     dyn = _mk(B, ns, inp["dt"], inp["sub"], inp["decohere"])
     _set_amp(dyn, inp["u0"], inp["th0"])
     dyn._active_states = torch.tensor(np.asarray(inp["act"]), dtype=torch.long)
+    if inp.get("hold") is not None:
+        dyn.post_hop_holdoff = torch.tensor(np.asarray(inp["hold"]), dtype=torch.long)
+    if inp.get("prev") is not None:
+        dyn.prev_state = torch.tensor(np.asarray(inp["prev"]), dtype=torch.long)
     minv = 1.0 / inp["m"]
     ftab = _T(inp["ftab"])
     ar = torch.arange(B)
@@ -919,7 +960,7 @@ def _pipe_init(inp):
     return {"dyn": dyn, "mol": mol, "calls": calls, "sub": inp["sub"], "nlog": 0}
 
 
-def _pipe_step(st, co, cn, torch_seed=None, step=0):
+def _pipe_step(st, co, cn, torch_seed=None, step=0, rvec=None):
     """the electronic part of _do_integrator_step with the real methods on the persistent object, snapshots in
     between; co / cn are the cache dicts (torch tensors) exactly as the driver would hold them"""
     import torch
@@ -938,7 +979,25 @@ def _pipe_step(st, co, cn, torch_seed=None, step=0):
     if torch_seed is not None:
         torch.manual_seed(torch_seed)
     _MON["g"].clear()
-    dyn._after_electronic_update(mol, excitation_energies=cn["energies"], step=step)
+    if rvec is None:
+        dyn._after_electronic_update(mol, excitation_energies=cn["energies"], step=step)
+    else:
+        # the uniform draws of _attempt_hop are supplied by the harness (one per row) so that a trajectory processed
+        # alone sees exactly the draw it sees inside the batch
+        real_rand = torch.rand
+        rv = [float(x) for x in rvec]
+
+        def fake_rand(*size, **kw):
+            n = int(size[0]) if size and not isinstance(size[0], (tuple, list)) else int(size[0][0])
+            if n != len(rv):
+                raise RuntimeError("harness: torch.rand asked for %d draws, %d supplied" % (n, len(rv)))
+            return torch.tensor(rv, dtype=torch.float64)
+
+        torch.rand = fake_rand
+        try:
+            dyn._after_electronic_update(mol, excitation_energies=cn["energies"], step=step)
+        finally:
+            torch.rand = real_rand
     gframes = list(_MON["g"])
     fin = {"amp": dyn._amp_phase.clone().numpy(), "act": dyn._active_states.clone().numpy(),
            "vel": mol.velocities.clone().numpy(), "etot": mol.Etot.clone().numpy(),
@@ -974,8 +1033,9 @@ def _check_g_frames(acc, res, clause="g-range-in-pipeline"):
             continue
         gnp = gr.numpy()
         acc.count("g_frames_read")
-        if gnp.min() < 0 or gnp.max() > 1 + 1e-12 or gnp.sum(axis=1).max() > 1 + 1e-12:
-            acc.violate(clause, None, gmin=float(gnp.min()), gmax=float(gnp.max()), rowsum=float(gnp.sum(axis=1).max()))
+        if not np.isfinite(gnp).all() or gnp.min() < 0 or gnp.max() > 1 + 1e-12 or gnp.sum(axis=1).max() > 1 + 1e-12:
+            acc.violate(clause, None, gmin=float(gnp.min()), gmax=float(gnp.max()), rowsum=float(gnp.sum(axis=1).max()),
+                        finite=bool(np.isfinite(gnp).all()))
 
 
 def _judge_step(acc, inp, res, decohere, sc, regime):
@@ -1087,7 +1147,7 @@ def _judge_step(acc, inp, res, decohere, sc, regime):
             if int(fin["act"][b]) != int(exp_act[b]) or not _beq(mid["vel"][b], fin["vel"][b]):
                 acc.violate("frustrated-hop-leaves-state-and-velocities", mech, row=b, active_before=int(exp_act[b]),
                             active_after=int(fin["act"][b]))
-            if abs(float(fin["etot"][b]) - (float(mid["etot"][b]) + float(inp["E1"][b, exp_act[b]] - inp["E1"][b, mid["act"][b]]))) > 1e-12 * (1 + abs(float(mid["etot"][b]))):
+            if not (abs(float(fin["etot"][b]) - (float(mid["etot"][b]) + float(inp["E1"][b, exp_act[b]] - inp["E1"][b, mid["act"][b]]))) <= 1e-12 * (1 + abs(float(mid["etot"][b])))):
                 acc.violate("frustrated-hop-leaves-active-energy", mech, row=b)
     for b in range(B):
         if b not in hopped:
@@ -1159,6 +1219,196 @@ def _run_after(case):
 
 
 # =======================================================================================================
+# (d) each trajectory processed alone; single-step holdoff configurations
+# =======================================================================================================
+_SOLO_FLOAT = ("amp", "vel", "etot", "force", "acc", "cur")
+_SOLO_INT = ("act", "hold", "prev")
+
+
+def _slice_base(inp, b):
+    """inputs of row b alone (batch of one)"""
+    out = {}
+    for k, v in inp.items():
+        if k == "nactab":
+            out[k] = {kk: vv[b:b + 1] for kk, vv in v.items()}
+        elif k == "perms":
+            out[k] = [v[b]]
+        elif isinstance(v, np.ndarray) and v.ndim >= 1 and k not in ("rvec",):
+            out[k] = v[b:b + 1]
+        else:
+            out[k] = v
+    return out
+
+
+def _cmp_solo(acc, res, solo, b, **where):
+    """row b inside the batch vs the same trajectory processed alone (same inputs, same uniform draw): integer state
+    and hop log exact, floating state within 1e-12 (no bitwise demand across batch sizes).  -> True when equal"""
+    acc.count("solo_rows_compared")
+    diffs = []
+    for k in _SOLO_INT:
+        if not np.array_equal(res["fin"][k][b], solo["fin"][k][0]):
+            diffs.append(k)
+    worst = 0.0
+    for k in _SOLO_FLOAT:
+        x, y = np.asarray(res["fin"][k][b], float), np.asarray(solo["fin"][k][0], float)
+        d = float(np.abs(x - y).max()) if x.size else 0.0
+        sc = 1e-12 * max(1.0, float(np.abs(y).max()) if y.size else 1.0)
+        if not (d <= sc):
+            diffs.append(k)
+        worst = max(worst, d / sc if math.isfinite(d) else BIG)
+    d = float(np.abs(res["mid"]["amp"][b] - solo["mid"]["amp"][0]).max())
+    if not (d <= 1e-12 * max(1.0, float(np.abs(solo["mid"]["amp"][0]).max()))):
+        diffs.append("amp_after_propagate")
+    if [(e[1], e[2], e[3], e[4]) for e in res["log"] if e[0] == b] != [(e[1], e[2], e[3], e[4]) for e in solo["log"]]:
+        diffs.append("hop_log")
+    acc.margin("solo_vs_batch_float_state", worst, 1.0) if not diffs else None
+    if diffs:
+        acc.violate("trajectory-in-batch-equals-trajectory-alone", None, row=b, differing=diffs,
+                    active_in_batch=int(res["fin"]["act"][b]), active_alone=int(solo["fin"]["act"][0]),
+                    log_in_batch=[e for e in res["log"] if e[0] == b], log_alone=solo["log"],
+                    swap_to_in_batch=None if res["swap"] is None else res["swap"].tolist(),
+                    swap_to_alone=None if solo["swap"] is None else solo["swap"].tolist(), **where)
+    return not diffs
+
+
+def _hold1_inputs(case):
+    from scipy.linalg import expm
+
+    g = np.random.default_rng(case["seed"])
+    ns, B, ms, dt = case["ns"], case["B"], case["molsize"], case["dt"]
+    nov = 12
+    act = g.integers(0, ns, B)
+    m = np.array([[MASSES[int(k)] for k in g.integers(0, len(MASSES), ms)] for _ in range(B)])
+    v = g.normal(0.0, 0.01, (B, ms, 3))
+    dlim = 0.9 / dt
+    E0 = np.zeros((B, ns))
+    E1 = np.zeros((B, ns))
+    D0 = np.zeros((B, ns, ns))
+    D1 = np.zeros((B, ns, ns))
+    u0 = np.zeros((B, ns), complex)
+    th0 = np.zeros((B, ns))
+    for b in range(B):
+        E0[b] = _energies(g, ns, float(10 ** g.uniform(-2, 0)))
+        E1[b] = E0[b] + g.normal(0, 0.01, ns)
+        sc_b = min(0.2 * dlim, float(10 ** g.uniform(-2, 0.0)))
+        D0[b] = np.clip(_antisym(g, ns, sc_b), -dlim, dlim)
+        D1[b] = np.clip(D0[b] + _antisym(g, ns, 0.2 * sc_b), -dlim, dlim)
+        u0[b], th0[b] = _rand_amp(g, ns)
+    # rows: holdoff row(s) and the row with the genuine pairwise crossing
+    rows = list(g.permutation(B))
+    c = int(rows[0])
+    below = [r for r in range(B) if r < c]
+    above = [r for r in range(B) if r > c]
+    want = case["hold_pos"]
+    if want == "below" and not below:
+        c = B - 1
+        below = list(range(B - 1))
+    if want == "above" and not above:
+        c = 0
+        above = list(range(1, B))
+    pool = below if want == "below" else (above if want == "above" else below + above)
+    nh = 1 if len(pool) == 1 or g.random() < 0.6 else 2
+    holds = [int(x) for x in g.choice(pool, nh, replace=False)]
+    if want == "both" and below and above:
+        holds = [int(g.choice(below)), int(g.choice(above))]
+    hold = np.zeros(B, dtype=np.int64)
+    prev = np.full(B, -1, dtype=np.int64)
+    perms = [list(range(ns)) for _ in range(B)]
+    pc = _plan_perm(g, ns, str(g.choice(["swap", "swap2", "swap-active"] + (["double-swap"] if ns >= 4 else []))), int(act[c]))
+    perms[c] = pc
+    for h in holds:
+        hold[h] = int(g.choice([2, 2, 3]))  # the driver decrements before detection: 1 or 2 at detection time
+        a = int(act[h])
+        partners = [j for j in (a - 2, a - 1, a + 1, a + 2) if 0 <= j < ns]
+        if case["hold_strong"]:
+            for _ in range(20):
+                j = int(g.choice(partners))
+                ph = list(range(ns))
+                ph[a], ph[j] = j, a
+                if {i for i in range(ns) if ph[i] != i} != {i for i in range(ns) if pc[i] != i}:
+                    break
+            perms[h] = ph
+            # prev_state: the partner itself (no holdoff reset) or another state (reset)
+            prev[h] = j if g.random() < 0.5 else int(g.choice([x for x in range(ns) if x != a]))
+        else:
+            prev[h] = int(g.choice([x for x in range(ns) if x != a])) if g.random() < 0.7 else -1
+    cis_old = np.zeros((B, ns, nov))
+    cis_new = np.zeros((B, ns, nov))
+    for b in range(B):
+        Q = np.linalg.qr(g.normal(size=(nov, nov)))[0]
+        cis_old[b] = Q[:ns]
+        W = g.normal(size=(nov, nov)) * 0.02
+        Rm = expm(W - W.T)
+        for i in range(ns):
+            cis_new[b, perms[b][i]] = (cis_old[b, i] @ Rm) * float(g.choice([-1.0, 1.0]))
+    return {"E0": E0, "E1": E1, "D0": D0, "D1": D1, "u0": u0, "th0": th0, "act": act, "m": m, "v": v,
+            "cis_old": cis_old, "cis_new": cis_new, "perms": perms, "hold": hold, "prev": prev,
+            "ftab": g.normal(0, 1.0, (B, ns, ms, 3)),
+            "nactab": {(i, j): g.normal(0, 10 ** g.uniform(-1, 1), (B, ms, 3)) for i in range(ns) for j in range(i + 1, ns)},
+            "etot": g.uniform(-3.0, 3.0, B), "sub": None if case["regime"].startswith("adaptive") else int(g.choice([8, 16])),
+            "dt": dt, "decohere": case["decohere"], "rvec": g.uniform(0.0, 1.0, B), "crossing_row": c, "holdoff_rows": holds}
+
+
+def _one_step(inp, rvec):
+    st = _pipe_init(inp)
+    co = {"energies": _T(inp["E0"]), "nac_dot": _T(inp["D0"]), "cis_amp": _T(inp["cis_old"])}
+    cn = {"energies": _T(inp["E1"]), "nac_dot": _T(inp["D1"]), "cis_amp": _T(inp["cis_new"])}
+    return _pipe_step(st, co, cn, None, step=0, rvec=rvec)
+
+
+def _run_hold1(case):
+    """single step: trajectories still in post-hop holdoff (probe group of _detect_crossings when their active state
+    overlaps another state strongly) at lower / higher batch index than a trajectory with a genuine pairwise crossing"""
+    acc = _Acc()
+    inp = _hold1_inputs(case)
+    B, ns = inp["E0"].shape
+    res = _one_step(inp, inp["rvec"])
+    if res["nsub"] is None:
+        return acc.result(False, inconclusive="frame local 'nsub' not readable")
+    acc.count("propagate_returns_seen")
+    acc.count("after_update_calls")
+    c, holds = inp["crossing_row"], inp["holdoff_rows"]
+    acc.count("hold1_steps")
+    for h in holds:
+        acc.count("hold1_holdoff_row_%s_crossing_row" % ("below" if h < c else "above"))
+    acc.cells.add("hold1/%s/%s/%s" % (case["hold_pos"], "strong-overlap" if case["hold_strong"] else "weak-overlap", case["regime"]))
+    _check_g_frames(acc, res)
+    before = acc.mon.get("after_trivial_relabels", 0)
+    _judge_step(acc, inp, res, case["decohere"], "hold1", case["regime"])
+    if acc.mon.get("after_trivial_relabels", 0) > before:
+        acc.count("hold1_crossing_applied")
+    # control: the crossing of row c removed -> every other row bitwise identical
+    ctrl_inp = {k: (v.copy() if isinstance(v, np.ndarray) else v) for k, v in inp.items()}
+    ctrl_inp["cis_new"][c] = inp["cis_old"][c]
+    ctrl_inp["perms"] = [p if b != c else list(range(ns)) for b, p in enumerate(inp["perms"])]
+    ctrl = _one_step(ctrl_inp, inp["rvec"])
+    if ctrl["nsub"] == res["nsub"]:
+        for b in range(B):
+            if b == c:
+                continue
+            acc.count("after_isolation_rows_compared")
+            diffs = [k for k in ("amp", "act", "vel", "etot", "hold", "prev", "force", "acc", "cur")
+                     if not _beq(res["fin"][k][b], ctrl["fin"][k][b])]
+            if [e for e in res["log"] if e[0] == b] != [e for e in ctrl["log"] if e[0] == b]:
+                diffs.append("hop_log")
+            if diffs:
+                acc.violate("row-isolation-bitwise", None, row=b, differing=diffs, scenario="hold1", crossing_row=c,
+                            holdoff_rows=holds, swap_to=None if res["swap"] is None else res["swap"].tolist(),
+                            planned=inp["perms"])
+    # every trajectory processed alone
+    for b in range(B):
+        solo = _one_step(_slice_base(inp, b), inp["rvec"][b:b + 1])
+        if solo["nsub"] != res["nsub"]:
+            acc.count("solo_skipped_nsub_differs")
+            continue
+        _cmp_solo(acc, res, solo, b, crossing_row=c, holdoff_rows=holds, planned=inp["perms"][b])
+    acc.obs.update({"crossing_row": c, "holdoff_rows": holds, "planned": inp["perms"], "log": res["log"][:6],
+                    "swap_to": None if res["swap"] is None else res["swap"].tolist(),
+                    "holdoff_after": res["fin"]["hold"].tolist()})
+    return acc.result(True)
+
+
+# =======================================================================================================
 # (d) sequences: one object, several consecutive steps, crossing events at different steps / rows / pairs
 # =======================================================================================================
 def _seq_inputs(case):
@@ -1200,6 +1450,32 @@ def _seq_inputs(case):
                 break
         used.append(p)
         events.append({"step": t, "row": row, "scenario": sc, "perm": p})
+    pattern = case.get("pattern", "plain")
+    if pattern.startswith("holdoff") and B >= 2:
+        # step 0: row h's ACTIVE state takes part in a pairwise crossing (relabelled -> holdoff 2, prev_state set);
+        # step 1: h, now in holdoff, overlaps another state strongly again (probe group) while row c, at a higher /
+        # lower batch index, has a genuine pairwise crossing in the SAME step; later events as drawn above
+        if pattern == "holdoff-below":
+            h = int(g.integers(0, B - 1))
+            c = int(g.integers(h + 1, B))
+        else:
+            c = int(g.integers(0, B - 1))
+            h = int(g.integers(c + 1, B))
+        a = int(act[h])
+        p0 = _plan_perm(g, ns, "swap-active", a)
+        a2 = p0[a]
+        partners = [j for j in (a2 - 2, a2 - 1, a2 + 1, a2 + 2) if 0 <= j < ns]
+        for _ in range(30):
+            j = int(g.choice(partners))
+            p1 = list(range(ns))
+            p1[a2], p1[j] = j, a2
+            pc = _plan_perm(g, ns, str(g.choice(["swap", "swap2"])), int(act[c]))
+            if {i for i in range(ns) if p1[i] != i} != {i for i in range(ns) if pc[i] != i}:
+                break
+        events = [{"step": 0, "row": h, "scenario": "swap-active", "perm": p0},
+                  {"step": 1, "row": h, "scenario": "probe-swap-in-holdoff", "perm": p1},
+                  {"step": 1, "row": c, "scenario": "swap", "perm": pc}] + \
+                 [e for e in events if e["step"] >= 3][:1]
     Q0 = np.stack([np.linalg.qr(g.normal(size=(nov, nov)))[0][:ns] for _ in range(B)])
     rot = np.zeros((T, B, nov, nov))
     sgn = g.choice([-1.0, 1.0], (T, B, ns))
@@ -1212,30 +1488,31 @@ def _seq_inputs(case):
             "ftab": g.normal(0, 1.0, (B, ns, ms, 3)),
             "nactab": {(i, j): g.normal(0, 10 ** g.uniform(-1, 1), (B, ms, 3)) for i in range(ns) for j in range(i + 1, ns)},
             "etot": g.uniform(-3.0, 3.0, B)}
-    return {"base": base, "E": E, "D": D, "events": events, "Q0": Q0, "rot": rot, "sgn": sgn, "T": T, "B": B, "ns": ns}
+    return {"base": base, "E": E, "D": D, "events": events, "Q0": Q0, "rot": rot, "sgn": sgn, "T": T, "B": B, "ns": ns,
+            "rvec": g.uniform(0.0, 1.0, (T, B))}
 
 
-def _seq_run(si, events, torch_seed):
-    """run the whole sequence on one object with the given events -> (list of per-step results, per-step perms)"""
-    import torch
-
+def _seq_run(si, events, row=None):
+    """run the whole sequence on one object with the given events (uniform draws supplied per step and row);
+    row = b: the trajectory b processed alone (batch of one).  -> (list of per-step results, per-step perms)"""
     T, B, ns = si["T"], si["B"], si["ns"]
-    st = _pipe_init(si["base"])
-    torch.manual_seed(torch_seed)
-    cis = si["Q0"].copy()
-    co = {"energies": _T(si["E"][0]), "nac_dot": _T(si["D"][0]), "cis_amp": _T(cis)}
+    rows = list(range(B)) if row is None else [row]
+    base = si["base"] if row is None else _slice_base(si["base"], row)
+    st = _pipe_init(base)
+    cis = si["Q0"][rows].copy()
+    co = {"energies": _T(si["E"][0][rows]), "nac_dot": _T(si["D"][0][rows]), "cis_amp": _T(cis)}
     out, plans = [], []
     for t in range(T):
-        perms = [list(range(ns)) for _ in range(B)]
+        perms = [list(range(ns)) for _ in rows]
         for e in events:
-            if e["step"] == t:
-                perms[e["row"]] = e["perm"]
+            if e["step"] == t and e["row"] in rows:
+                perms[rows.index(e["row"])] = e["perm"]
         new = np.zeros_like(cis)
-        for b in range(B):
+        for k, b in enumerate(rows):
             for i in range(ns):
-                new[b, perms[b][i]] = (cis[b, i] @ si["rot"][t, b]) * si["sgn"][t, b, i]
-        cn = {"energies": _T(si["E"][t + 1]), "nac_dot": _T(si["D"][t + 1]), "cis_amp": _T(new)}
-        res = _pipe_step(st, co, cn, None, step=t)
+                new[k, perms[k][i]] = (cis[k, i] @ si["rot"][t, b]) * si["sgn"][t, b, i]
+        cn = {"energies": _T(si["E"][t + 1][rows]), "nac_dot": _T(si["D"][t + 1][rows]), "cis_amp": _T(new)}
+        res = _pipe_step(st, co, cn, None, step=t, rvec=si["rvec"][t][rows])
         out.append(res)
         plans.append(perms)
         # shift the caches as _do_integrator_step does (nac_dot as left by _detect_crossings)
@@ -1248,14 +1525,14 @@ def _run_afterseq(case):
     acc = _Acc()
     si = _seq_inputs(case)
     T, B, ns = si["T"], si["B"], si["ns"]
-    tseed = case["seed"] % (2 ** 31)
-    full, plans = _seq_run(si, si["events"], tseed)
+    full, plans = _seq_run(si, si["events"])
     if any(r["nsub"] is None for r in full):
         return acc.result(False, inconclusive="frame local 'nsub' not readable")
     acc.count("propagate_returns_seen", T)
     acc.count("after_update_calls", T)
     acc.count("afterseq_steps", T)
-    acc.cells.add("afterseq/%s/steps%d/events%d/decohere-%s" % (case["regime"], T, len(si["events"]), "on" if case["decohere"] else "off"))
+    acc.cells.add("afterseq/%s/%s/steps%d/events%d/decohere-%s" % (case.get("pattern", "plain"), case["regime"], T, len(si["events"]),
+                                                                   "on" if case["decohere"] else "off"))
     applied_steps = set()
     for t, res in enumerate(full):
         before = acc.mon.get("after_trivial_relabels", 0)
@@ -1264,6 +1541,25 @@ def _run_afterseq(case):
                     res, case["decohere"], "seq-step%d" % t, case["regime"])
         if acc.mon.get("after_trivial_relabels", 0) > before:
             applied_steps.add(t)
+    # was a row in holdoff (with prev_state set) at detection time while ANOTHER row's relabelling was applied?
+    for t in range(1, T):
+        hold_det = np.maximum(full[t - 1]["fin"]["hold"] - 1, 0)
+        moved_rows = [b for b in range(B) if not _beq(full[t]["mid"]["amp"][b], full[t]["fin"]["amp"][b]) and
+                      any(e["step"] == t and e["row"] == b for e in si["events"])]
+        for b in moved_rows:
+            for h in range(B):
+                if h != b and hold_det[h] > 0 and full[t - 1]["fin"]["prev"][h] >= 0:
+                    acc.count("afterseq_holdoff_row_%s_relabelled_row" % ("below" if h < b else "above"))
+    # every trajectory processed alone through the whole sequence
+    for b in range(B):
+        solo, _ = _seq_run(si, si["events"], row=b)
+        for t in range(T):
+            if solo[t]["nsub"] != full[t]["nsub"]:
+                acc.count("solo_skipped_nsub_differs")
+                break
+            if not _cmp_solo(acc, full[t], solo[t], b, step=t,
+                             events=[{k: x[k] for k in ("step", "row", "scenario", "perm")} for x in si["events"]]):
+                break
     ev_steps = sorted(e["step"] for e in si["events"])
     if len(applied_steps) >= 2:
         acc.count("afterseq_sequences_with_two_applied_events")
@@ -1273,7 +1569,7 @@ def _run_afterseq(case):
             acc.cells.add("afterseq/quiet-step-between-events")
     # ---- isolation: remove ONE event; every other row must stay bitwise identical through the whole sequence ----
     for e in si["events"]:
-        ctrl, _ = _seq_run(si, [x for x in si["events"] if x is not e], tseed)
+        ctrl, _ = _seq_run(si, [x for x in si["events"] if x is not e])
         for t in range(T):
             if ctrl[t]["nsub"] != full[t]["nsub"]:
                 acc.count("afterseq_isolation_skipped_nsub_differs")
@@ -1394,7 +1690,7 @@ def _run_tully(case):
             acc.count("tully_force_checks")
             tolF = 1e-6 * max(1.0, abs(F_fd[b]))
             acc.margin("tully_force_is_active_gradient", abs(F_app[b] - F_fd[b]), tolF)
-            if abs(F_app[b] - F_fd[b]) > tolF:
+            if not (abs(F_app[b] - F_fd[b]) <= tolF):  # (NaN-safe)
                 if abs(F_app[b] + dEa[b, a[b]]) <= tolF:
                     force_mech[b].add(MECH_TULLY_GRAD)
                 elif a[b] != a[0] and (abs(F_app[b] + dEa[b, a[0]]) <= tolF or abs(F_app[b] + dfd[b, a[0]]) <= tolF):
@@ -1425,8 +1721,9 @@ def _run_tully(case):
             continue
         gnp = gr.numpy()
         acc.count("g_frames_read")
-        if gnp.min() < 0 or gnp.max() > 1 + 1e-12 or gnp.sum(axis=1).max() > 1 + 1e-12:
-            acc.violate("g-range-in-tully", None, gmin=float(gnp.min()), gmax=float(gnp.max()))
+        if not np.isfinite(gnp).all() or gnp.min() < 0 or gnp.max() > 1 + 1e-12 or gnp.sum(axis=1).max() > 1 + 1e-12:
+            acc.violate("g-range-in-tully", None, gmin=float(gnp.min()), gmax=float(gnp.max()),
+                        finite=bool(np.isfinite(gnp).all()))
     tot = np.array(rec["tot"])
     delta = np.array(rec["delta"])
     nrm = np.array(rec["norm"])
@@ -1498,6 +1795,8 @@ def run_case(case):
         return _run_after(case)
     if kind == "afterseq":
         return _run_afterseq(case)
+    if kind == "hold1":
+        return _run_hold1(case)
     if kind == "tully":
         return _run_tully(case)
     if kind == "selftest":
